@@ -174,12 +174,59 @@ def run(ctx: Ctx) -> Outcome:
         if sig not in seen:
             seen.add(sig)
             out.violations.append(Violation(sig, f"{name} on a tensor of shape {shape}: {msg}", {"kind": "noop", "name": name}))
-    out.evaluations += 26
+    for name, msg in mutable_arg_cases():
+        out.violations.append(Violation(f"C04|mutable-argument|{name}", f"{name}: {msg}", {"kind": "mutarg", "name": name}))
+    out.evaluations += 26 + 8
     out.assumptions = ["advanced-index assignment whose value aliases the target (NumPy's result is order-dependent there) is excluded",
                        "H_fresh: leaves own fresh memory (tensors made with copy=False from overlapping user arrays are outside the model)",
                        "owner tensors are C- or Fortran-ordered leaves; the copy of the base made by an in-place update is laid out "
                        "by NumPy's 'K' rule (modelled, korderStrides, tied to NumPy on every run); the result layout of element-wise "
                        "kernels on non-C-contiguous operands is not modelled: `reshape` is generated only where the model knows the strides"]
+    return out
+
+
+def mutable_arg_cases(only=None):
+    """a view made with a *mutable* argument object (a list giving the new shape / the axes / the index) that the caller
+    changes afterwards: the view is what it was made to be — an in-place update of its base (which re-creates the view
+    from recorded arguments) must leave its shape and its window as they are on ndarrays.  -> [(name, message)]"""
+    import mygrad as mg
+
+    out = []
+
+    def L(v):
+        return list(v)
+
+    cases = [
+        ("reshape-method-list", (6,), lambda t, a: (L([2, 3]),), lambda t, m: t.reshape(m[0]), lambda a, m: a.reshape(m[0]), lambda m: m[0].__setitem__(slice(None), [3, 2])),
+        ("reshape-func-list", (6,), lambda t, a: (L([2, 3]),), lambda t, m: mg.reshape(t, m[0]), lambda a, m: np.reshape(a, m[0]), lambda m: m[0].__setitem__(slice(None), [3, 2])),
+        ("transpose-list", (2, 3), lambda t, a: (L([1, 0]),), lambda t, m: mg.transpose(t, m[0]), lambda a, m: np.transpose(a, m[0]), lambda m: m[0].__setitem__(slice(None), [0, 1])),
+        ("moveaxis-lists", (2, 3, 4), lambda t, a: (L([0]), L([2])), lambda t, m: mg.moveaxis(t, m[0], m[1]), lambda a, m: np.moveaxis(a, m[0], m[1]), lambda m: m[1].__setitem__(0, 1)),
+        ("broadcast_to-list", (3,), lambda t, a: (L([2, 3]),), lambda t, m: mg.broadcast_to(t, m[0]), lambda a, m: np.broadcast_to(a, m[0]), lambda m: m[0].__setitem__(0, 4)),
+        ("expand_dims-list", (2, 3), lambda t, a: (L([0]),), lambda t, m: mg.expand_dims(t, tuple(m[0])), lambda a, m: np.expand_dims(a, tuple(m[0])), lambda m: m[0].__setitem__(0, 2)),
+        ("squeeze-axis-list", (1, 3, 1), lambda t, a: (L([0]),), lambda t, m: mg.squeeze(t, tuple(m[0])), lambda a, m: np.squeeze(a, tuple(m[0])), lambda m: m[0].__setitem__(0, 2)),
+        ("getitem-tuple-of-slices", (6,), lambda t, a: (L([slice(1, 4)]),), lambda t, m: t[tuple(m[0])], lambda a, m: a[tuple(m[0])], lambda m: m[0].__setitem__(0, slice(0, 2))),
+    ]
+    for name, shape, mkargs, f, g, mutate in cases:
+        if only is not None and name != only:
+            continue
+        a = np.arange(float(np.prod(shape))).reshape(shape).copy()
+        x = mg.tensor(a.copy())
+        m = mkargs(x, a)
+        m2 = mkargs(x, a)
+        try:
+            v, w = f(x, m), g(a, m2)
+            mutate(m)
+            mutate(m2)
+            x[...] = x.data * 2.0 + 1.0
+            a[...] = a * 2.0 + 1.0
+        except Exception as e:  # noqa: BLE001
+            out.append((name, f"raised {type(e).__name__}: {str(e)[:80]}"))
+            continue
+        if v.shape != w.shape or not np.array_equal(v.data, w):
+            out.append((name, f"after the argument object was changed and the base updated in place the view is {v.data.tolist()} "
+                        f"(shape {v.shape}); NumPy: {w.tolist()} (shape {w.shape})"))
+        elif bool(np.shares_memory(v.data, x.data)) != bool(np.shares_memory(w, a)):
+            out.append((name, "memory sharing with the base differs from NumPy's after the update"))
     return out
 
 
@@ -383,6 +430,10 @@ def check_witness(w):
 
 def replay(data) -> bool:
     r = data["replay"]
+    if r.get("kind") == "mutarg":
+        f = mutable_arg_cases(only=r["name"])
+        print(f)
+        return bool(f)
     if r.get("kind") == "noop":
         f = [c for c in noop_view_cases() if c[0] == r["name"]]
         print(f)
